@@ -389,24 +389,26 @@ func c05Sizes(r *core.Report, pk string) {
 	})
 	if rh := r.Anchor(rule, pk+".readHeader"); rh != nil {
 		ri := rh.Pkg.TypesInfo
-		for _, rn := range p.Graph(rh).Returns() {
-			for _, e := range returnResults(rn) {
-				if be, ok := core.Unparen(e).(*ast.BinaryExpr); ok && be.Op == token.ADD {
-					if c, ok := core.ConstInt(ri, be.Y); ok && c == 4 && definedByCall(rh, be.X, func(c *ast.CallExpr) bool {
-						return core.CalleeName(ri, c) == pk+".readHeaderSize"
-					}) {
-						rOK = true
-					}
+		// <size read by readHeaderSize> + 4, returned directly or as a field of the returned header struct
+		ast.Inspect(rh.Body, func(m ast.Node) bool {
+			if be, ok := m.(*ast.BinaryExpr); ok && be.Op == token.ADD {
+				if c, ok := core.ConstInt(ri, be.Y); ok && c == 4 && definedByCall(rh, be.X, func(c *ast.CallExpr) bool {
+					return core.CalleeName(ri, c) == pk+".readHeaderSize"
+				}) {
+					rOK = true
 				}
 			}
-		}
+			return true
+		})
 	}
 	r.Check(wOK && rOK, rule, pk+"#header-size-excludes-own-4-bytes", posP(r, seal.Pos()), "the stored header size excludes its own 4 bytes and the reader adds them back for the content base",
 		"writer and reader disagree on whether the stored header size includes its own 4 bytes: the content reader is based 4 bytes off")
 }
 
 // fieldSeq extracts the sequence of header fields written/read by f.
-func fieldSeq(f *core.Func) []string {
+func fieldSeq(f *core.Func) []string { return fieldSeqDepth(f, 0) }
+
+func fieldSeqDepth(f *core.Func, depth int) []string {
 	info := f.Pkg.TypesInfo
 	var out []string
 	ast.Inspect(f.Body, func(n ast.Node) bool {
@@ -416,6 +418,21 @@ func fieldSeq(f *core.Func) []string {
 		}
 		nm := core.CalleeName(info, c)
 		short := nm[strings.LastIndex(nm, ".")+1:]
+		// a helper of the package that is handed the encoder / decoder: its fields come at this point of the sequence
+		if fo := core.Callee(info, c); fo != nil && depth < 3 && f.Prog != nil {
+			if h := f.Prog.ByObj[fo.Origin()]; h != nil && h.Body != nil && h.Pkg == f.Pkg && h != f {
+				passesCodec := false
+				for _, a := range c.Args {
+					if t := info.TypeOf(a); t != nil && strings.Contains(t.String(), "gagliardetto/binary") {
+						passesCodec = true
+					}
+				}
+				if passesCodec {
+					out = append(out, fieldSeqDepth(h, depth+1)...)
+					return false
+				}
+			}
+		}
 		switch {
 		case short == "WriteUint32" || short == "ReadUint32":
 			out = append(out, "u32")
